@@ -384,14 +384,14 @@ if _os.path.exists(_cal):
             PROPS[_pid]["thresholds"]["quick"] = _t
 
 # Thorough-tier thresholds: the hand-set figures above are what an idle 16-core machine observes within the
-# 1500 s budget; a run is accepted from a quarter of that (a machine four times slower, or shared), and never
-# from less than the quick tier's own minimum.
+# 1500 s budget; a run is accepted from an eighth of that (a slower or shared machine: the thorough workloads are
+# cut by the time budget), and never from less than the quick tier's own minimum.
 for _pid in PROPS:
     _th = PROPS[_pid]["thresholds"]["thorough"]
     _q = PROPS[_pid]["thresholds"]["quick"]
-    _th["evaluations"] = max(_q.get("evaluations", 1), _th.get("evaluations", 1) // 4)
-    _th["distinct_nontrivial"] = max(_q.get("distinct_nontrivial", 1), _th.get("distinct_nontrivial", 1) // 4)
-    _th["counters"] = {k: max(1, v // 4) for k, v in _th.get("counters", {}).items()}
+    _th["evaluations"] = max(_q.get("evaluations", 1), _th.get("evaluations", 1) // 8)
+    _th["distinct_nontrivial"] = max(_q.get("distinct_nontrivial", 1), _th.get("distinct_nontrivial", 1) // 8)
+    _th["counters"] = {k: max(1, v // 8) for k, v in _th.get("counters", {}).items()}
 
 # inconclusive reasons that must stay rare: more than this many turns the run into INCONCLUSIVE (exit 2)
 PROPS["C16"]["max_inconclusive"] = {"call-stuck-without-deadlock-witness": 0}
